@@ -56,9 +56,18 @@ def regular_files_below(rel):
 
 
 # ----------------------------------------------------------------------------- data source
+def tag(x):
+    """values are compared together with their type: "s:<text>" for str, "<type name>:<repr>" otherwise
+    (12 -> "int:12", "12" -> "s:12", ["a", "b"] -> "list:['a', 'b']")"""
+    if isinstance(x, str):
+        return "s:" + x
+    return type(x).__name__ + ":" + repr(x)
+
+
 class RecordingSource(DataSource):
-    """find_system answers from a table {(key, value): ("id", x) | ("raise",) | ("none",)};
-    get_data raises for ids in `raising`, else returns {"tag": "data-of-<id>"}."""
+    """find_system answers from a table {(key, tag(value)): ("id", x) | ("raise",) | ("none",)};
+    get_data raises for ids whose tag is in `raising`, else returns {"tag": "data-of-<tag(id)>"}.
+    The log records the arguments with their types (tag)."""
 
     def __init__(self, table, raising):
         self.table = table
@@ -66,8 +75,8 @@ class RecordingSource(DataSource):
         self.log = []
 
     def find_system(self, lookup_key, lookup_value):
-        self.log.append((0, lookup_key, lookup_value))
-        row = self.table.get((lookup_key, lookup_value), ("none",))
+        self.log.append((0, lookup_key, tag(lookup_value)))
+        row = self.table.get((lookup_key, tag(lookup_value)), ("none",))
         if row[0] == "raise":
             raise RuntimeError("find_system failed")
         if row[0] == "id":
@@ -76,10 +85,10 @@ class RecordingSource(DataSource):
 
     def get_data(self, system_id, preceding_data, preceding_data_version):
         ok_args = (preceding_data == {}) and (preceding_data_version == "")
-        self.log.append((1, system_id if ok_args else str(system_id) + "?unexpected-arguments"))
-        if system_id in self.raising:
+        self.log.append((1, tag(system_id) if ok_args else tag(system_id) + "?unexpected-arguments"))
+        if tag(system_id) in self.raising:
             raise RuntimeError("get_data failed")
-        return {"tag": "data-of-" + str(system_id)}, "v1"
+        return {"tag": "data-of-" + tag(system_id)}, "v1"
 
 
 @jinja2.pass_context
@@ -90,7 +99,7 @@ def _dump(ctx):
     keys = sorted(k for k in allv if k not in env_globals and k != "dump")
     out = {"keys": keys}
     if "id" in allv:
-        out["id"] = allv["id"]
+        out["id"] = tag(allv["id"])
     if "data" in allv:
         try:
             out["data"] = allv["data"].get("tag")
@@ -147,6 +156,8 @@ def config_dict(cfg, template_cache=True):
         chain.append({"string.add_prefix": cfg["tpre"]})
     if cfg.get("tsuf"):
         chain.append({"string.add_suffix": [cfg["tsuf"]]})
+    if cfg.get("chain"):
+        chain = cfg["chain"]          # an explicit chain (may end in a function returning a non-str value)
     if chain:
         d["lookup_value_transform"] = chain
     if cfg.get("template"):
